@@ -1,12 +1,13 @@
 (* C05 — executable model of /repo/src/version_graph.rs (VersionGraph::resolve, ::get,
    ::apply_diffs).  Definitions only; the proofs are in Theory*.v.
 
-   A directory is the list of its (file name, content) pairs in the order `read_dir` lists them.
+   A directory is the list of its (file name, content) pairs in the order `read_dir` lists them;
+   resolve sorts it by file name first ([resolve_dir], since fix 'the version graph does not depend on the listing order').
    The operations version_graph composes (reading a .tiny / .tinydiff file, contracting and
    extending inner class names, applying a diff) are NOT modelled here (they belong to C03,
    C04, C11): they are explicit parameters, bundled in [ops].  A graph node is its index in
    creation order, exactly petgraph's NodeIndex. *)
-From FB Require Export Base.Str Base.Run C05.Consts.
+From FB Require Export Base.Str Base.Run Base.Sort C05.Consts.
 From Coq Require Export Arith.PeanoNat.
 
 (* ---------- str::split_once / str::strip_suffix ---------- *)
@@ -174,6 +175,18 @@ Definition resolve {C M} (load_root : C -> res M) (d : list (file C)) : res (gra
           end
       end
   end.
+
+(* ---------- the directory listing ----------
+   `files.sort_by_key(|file| file.file_name())`: resolve goes through the entries of the directory in the order of their
+   names (OsString order = byte order of the UTF-8 names = code point order), whatever order `read_dir` lists them in;
+   [resolve] above is the function of the sequence in which the files are processed, [resolve_dir] is
+   VersionGraph::resolve on a directory given in listing order.  (Two entries of a directory never have the same name.) *)
+Definition file_leb {C} (a b : file C) : bool := match str_cmp (fst a) (fst b) with Gt => false | _ => true end.
+Definition sort_files {C} (d : list (file C)) : list (file C) := isort file_leb d.
+(* [dir_sorted] (C05/Consts.v) is read off the source by translate/c05_consts.py: whether the scan loop runs over the entries
+   sorted by file name *)
+Definition resolve_dir {C M} (load_root : C -> res M) (d : list (file C)) : res (graph C M) :=
+  resolve load_root (if dir_sorted then sort_files d else d).
 
 Definition get {C M} (g : graph C M) (name : str) : res (vsplit * nat) :=
   match tbl_get name (g_versions g) with Some x => Ok x | None => Err end.
